@@ -16,6 +16,15 @@ class C05(ProgProp):
             "line table with a |delta| >= 128 or a decreasing line; distinct = (version, line starts)")
     assumptions = ["CPython's dis.findlinestarts is ground truth; 3.13 starts_line is a bool: line_number is used"]
 
+    def fixed_cases(self, ctx):
+        for c in super().fixed_cases(ctx):
+            yield c
+        # every table once with line increments of 128 and more, and with offsets past the end of the code
+        for name in self.table_names():
+            even = self.table_vt(name) >= (3, 6)
+            for tab, n in (("06c8" if even else "05c8", 40), ("0aff0a8006ff", 60), ("fe01fe7f0280", 600), ("1401", 10)):
+                yield {"k": "tabfam", "opc": name, "table": tab, "first": 7, "codelen": n}
+
     def strata(self, ctx):
         from hypothesis import strategies as st
         from vf.gen import prog as gp
